@@ -117,6 +117,162 @@ def long_run_case(draw):
     return case
 
 
+# ---------------------------------------------------------------------------- overlapping calls on one object
+
+
+@st.composite
+def overlap_case(draw):
+    classes = st.sampled_from(["RATE_LIMIT", "TRANSIENT", "SERVER_ERROR", "UNKNOWN", "ok"])
+    return {
+        "max_attempts": draw(st.sampled_from([3, 4, 6, 8])),
+        "per_class": draw(st.dictionaries(st.sampled_from(["RATE_LIMIT", "TRANSIENT", "UNKNOWN"]), st.sampled_from([0, 1, 1, 2]), min_size=1, max_size=2)),
+        "max_unknown": draw(st.sampled_from([None, 0, 1, 2])),
+        "a": draw(st.lists(classes, min_size=1, max_size=6)),
+        "b": draw(st.lists(classes, min_size=1, max_size=4)),
+        "mode": draw(st.sampled_from(["nested_sync", "nested_async", "interleaved_async"])),
+        "at": draw(st.integers(0, 4)),
+        "same_object": draw(st.sampled_from([True, True, False])),
+        "sched": draw(st.lists(st.integers(0, 1), max_size=24)),
+        "via": draw(st.sampled_from(["execute", "call"])),
+    }
+
+
+def check_overlap(case: dict) -> Verdict:
+    """A call that starts (nested in the operation, or as another asyncio task) while an earlier call on the
+    same thread is still in progress must not disturb that call's counters, and vice versa: each call behaves
+    exactly as it does alone on a fresh object."""
+    import redress
+    from redress import ErrorClass
+
+    from ..harness import Suspend
+
+    v = Verdict()
+
+    class Boom(Exception):
+        def __init__(self, k):
+            super().__init__(k)
+            self.k = k
+
+    def make_policy(is_async):
+        R = redress.AsyncRetry if is_async else redress.Retry
+        return R(
+            classifier=lambda e: ErrorClass[e.k],
+            strategy=lambda ctx: 0.0,
+            max_attempts=case["max_attempts"],
+            max_unknown_attempts=case["max_unknown"],
+            per_class_max_attempts={ErrorClass[k]: n for k, n in case["per_class"].items()},
+            deadline_s=1e6,
+        )
+
+    def script_at(script, i):
+        return script[i] if i < len(script) else script[-1]
+
+    def summarize(kind, obj, log):
+        if kind == "raise":
+            return ("raise", type(obj).__name__, getattr(obj, "k", None), tuple(log))
+        if isinstance(obj, redress.RetryOutcome):
+            return ("outcome", obj.ok, obj.attempts, str(obj.stop_reason), str(obj.last_class), tuple(log))
+        return ("value", obj, tuple(log))
+
+    is_async = case["mode"] != "nested_sync"
+
+    def run_sync(pol, script, log, hook=None):
+        def op():
+            i = len([x for x in log if x[0] == "op"])
+            log.append(("op", i))
+            if hook is not None:
+                hook(i)
+            k = script_at(script, i)
+            if k == "ok":
+                return ("value", i)
+            raise Boom(k)
+
+        try:
+            return summarize("return", getattr(pol, case["via"])(op, sleeper=lambda s: None, on_metric=lambda ev, a, s, t: log.append((ev, a, t.get("class")))), log)
+        except Exception as x:  # noqa: BLE001
+            return summarize("raise", x, log)
+
+    async def run_async(pol, script, log, hook=None, susp=True):
+        async def op():
+            i = len([x for x in log if x[0] == "op"])
+            log.append(("op", i))
+            if susp:
+                await Suspend("op")
+            if hook is not None:
+                await hook(i)
+            k = script_at(script, i)
+            if k == "ok":
+                return ("value", i)
+            raise Boom(k)
+
+        async def sleeper(s):
+            if susp:
+                await Suspend("sleep")
+
+        try:
+            r = await getattr(pol, case["via"])(op, sleeper=sleeper, on_metric=lambda ev, a, s, t: log.append((ev, a, t.get("class"))))
+            return summarize("return", r, log)
+        except Exception as x:  # noqa: BLE001
+            return summarize("raise", x, log)
+
+    def drive_all(coros, sched):
+        results = {}
+        live = dict(enumerate(coros))
+        pos = 0
+        guard = 0
+        while live and guard < 2000:
+            guard += 1
+            ids = sorted(live)
+            pick = ids[(sched[pos] if pos < len(sched) else 0) % len(ids)]
+            pos += 1
+            try:
+                live[pick].send(None)
+            except StopIteration as si:
+                results[pick] = si.value
+                del live[pick]
+        for c in live.values():
+            c.close()
+        return results
+
+    # solo references on fresh objects
+    if is_async:
+        solo_a = drive_all([run_async(make_policy(True), case["a"], [])], [])[0]
+        solo_b = drive_all([run_async(make_policy(True), case["b"], [])], [])[0]
+    else:
+        solo_a = run_sync(make_policy(False), case["a"], [])
+        solo_b = run_sync(make_policy(False), case["b"], [])
+    v.evals += 2
+    pol = make_policy(is_async)
+    other = pol if case["same_object"] else make_policy(is_async)
+    inner_result = {}
+    if case["mode"] == "nested_sync":
+        def hook(i):
+            if i == case["at"] and "r" not in inner_result:
+                inner_result["r"] = run_sync(other, case["b"], [])
+
+        got_a = run_sync(pol, case["a"], [], hook)
+        got_b = inner_result.get("r")
+    elif case["mode"] == "nested_async":
+        async def ahook(i):
+            if i == case["at"] and "r" not in inner_result:
+                inner_result["r"] = await run_async(other, case["b"], [], susp=False)
+
+        got_a = drive_all([run_async(pol, case["a"], [], ahook)], [])[0]
+        got_b = inner_result.get("r")
+    else:
+        res = drive_all([run_async(pol, case["a"], []), run_async(other, case["b"], [])], case["sched"])
+        got_a, got_b = res.get(0), res.get(1)
+    what = f"{case['mode']} ({'same' if case['same_object'] else 'different'} policy object)"
+    if got_a != solo_a:
+        v.fail(f"C01:overlap:{case['mode']}:outer", f"{what}: call A behaves differently when another call overlaps it: alone {solo_a}, overlapped {got_a}; case {case}")
+    if got_b is not None and got_b != solo_b:
+        v.fail(f"C01:overlap:{case['mode']}:inner", f"{what}: call B behaves differently when it overlaps another call: alone {solo_b}, overlapped {got_b}; case {case}")
+    nfa = sum(1 for k in case["a"][: case["max_attempts"]] if k != "ok")
+    v.nontrivial = got_b is not None and nfa >= 2
+    v.tag("overlap:" + case["mode"], "overlap-happened" if got_b is not None else "no-overlap")
+    return v
+
+
 PROP = Property(
     id="C01",
     level="exploration",
@@ -125,7 +281,11 @@ PROP = Property(
         "invariants on the trace plus a fresh-object differential for every later call; thorough/quick tiers also "
         "enumerate exhaustively every outcome script over a 9-letter alphabet up to length 4/3 x max_attempts 1..4 x "
         "per-class limit {-,0,1,2} x UNKNOWN cap {-,0,1,2}; a long-run stream uses max_attempts 33..130 with caps around 32/64 and "
-        "blocks of one class separated by 30-40 failures of another. Non-trivial = a call with >=2 classified failures that ends on a "
+        "blocks of one class separated by 30-40 failures of another; a 'reconfigured' stream edits max_attempts / "
+        "max_unknown_attempts / per_class_max_attempts on a used policy object and compares the next call with a fresh object "
+        "built with the new values; an 'overlapping_calls' stream starts a second call while the first is in progress on the same "
+        "thread (nested inside the operation, sync and async, or as an interleaved coroutine under a generated schedule; same or "
+        "different policy object) and requires each call to behave exactly as it does alone. Non-trivial = a call with >=2 classified failures that ends on a "
         "cap (global/per-class/UNKNOWN/non-retryable), or a reused-object call made after earlier calls left failures "
         "behind. Distinct = distinct canonical (case, entry)."
     ),
@@ -134,5 +294,7 @@ PROP = Property(
         Stream("caps", check, strategy=C.with_entry(gen.retry_case(PROFILE), C.WIDE_ENTRIES), quick=12000, thorough=300000),
         Stream("small_scope", check, enum=enum_cases, quick=1, thorough=1, exhaustive=True),
         Stream("long_runs", check, strategy=long_run_case(), quick=1500, thorough=40000),
+        Stream("overlapping_calls", check_overlap, strategy=overlap_case(), quick=4000, thorough=100000),
+        Stream("reconfigured", lambda case: C.check_reconfigured(case, "C01"), strategy=C.reconfigured_case(PROFILE, ["max_attempts", "max_unknown", "per_class"]), quick=3000, thorough=60000),
     ],
 )
